@@ -6,7 +6,7 @@ import proto, gen, implutil
 
 THEOREMS = ['C10_cyclepoints', 'C10_argext', 'C10_midpoints', 'C10_shape', 'C10_burst_features', 'C10_ratio', 'C10_period_consistency', 'C10_rate', 'C10_amplitude']
 RULE = ("generated signals of all families x option sets of C01 x both burst methods x both centrings; (a) amplitude: compute_features(a*x) against compute_features(x) for "
-        "a = 2^k, k in [-40, 40] (exact in float64): every sample index, duration, symmetry, consistency, monotonicity, amplitude fraction, burst fraction and label equal, "
+        "a = 2^k, k in [-40, 40] (exact in float64; a quarter of the cases on int16 / int32 / int64 signals with k in [1, 4]): every sample index, duration, symmetry, consistency, monotonicity, amplitude fraction, burst fraction and label equal, "
         "every voltage feature and band_amp multiplied by a exactly; (b) rate: compute_features(x, c*fs, c*f_range) against compute_features(x, fs, f_range) for c = 2^k, "
         "k in [-3, 6] (fractional rates included; runs that the neurodsp filter validation refuses for its absolute-frequency limits are counted as kernel-refused), filter length in cycles: identical tables; distinct = distinct (signal, options, factor); non-trivial = >= 3 cycles and factor != 1")
 ASSUMPTIONS = ["exact commutation of float64 arithmetic with power-of-two factors is a runtime fact observed on the implementation (no overflow / subnormals in the tested range)",
@@ -38,6 +38,8 @@ def generate(ctx):
                           n_cycles=(None if rng.random() < 0.5 else int(rng.choice([2, 3, 4]))),
                           boundary=(None if rng.random() < 0.5 else int(rng.choice([0, 5, 30]))),
                           center=str(rng.choice(['peak', 'trough'])), method=method, th=th, family=s['family']))
+        if kind == 'amp' and rng.random() < 0.25:      # integer-typed recordings (ADC counts): factor 2^k, k in 1..4, stays in range
+            cases[-1].update(dtype=str(rng.choice(['int16', 'int32', 'int64'])), k=int(rng.integers(1, 5)))
     return cases
 
 _objs = {}
@@ -56,6 +58,9 @@ def evaluate(ctx, cases):
         key = hash(repr({k: v for k, v in c.items() if k != 'family'}))
         x = proto.hex2arr(c['sig']); fs = c['fs']; fr = tuple(c['f_range'])
         f = 2.0 ** c['k']
+        if c.get('dtype'):
+            m = float(np.max(np.abs(x))) or 1.0
+            x = np.round(x * (1000.0 / m)).astype(c['dtype']); f = int(f)
         res = []
         for args in ((x, fs, fr), ((x * f, fs, fr) if c['kind'] == 'amp' else (x, fs * f, (fr[0] * f, fr[1] * f)))):
             try:
@@ -87,6 +92,6 @@ def evaluate(ctx, cases):
                     ok = False
                     i = next(i for i, (p, q) in enumerate(zip(u.tolist(), v.tolist())) if not ((p != p and q != q) or p * scale == q))
                     info['judge'] = 'column %s row %d: %r (x %g) vs %r' % (col, i, u[i], scale, v[i]); break
-        ctx.hist('kind', c['kind']); ctx.hist('method', c['method'])
+        ctx.hist('kind', c['kind']); ctx.hist('method', c['method']); ctx.hist('dtype', c.get('dtype', 'float64'))
         out.append(Result(c, judge_ok=ok, corr_ok=ok, sig=key, nontrivial=(len(a) >= 3 and c['k'] != 0), info=info))
     return out
